@@ -17,8 +17,8 @@ def body(run):
     q = run.quick()
     exe = [None]
     res = run.parallel(
-        lambda: run.tlc("ScRecv", "ScExpire", "ScExpire_mc.cfg", label="contract: 3 tokens, lifetime 4 ticks, 12 ticks, 3 injections"),
-        lambda: run.tlc("ScRecv", "ScExpire", "ScExpire_dev.cfg", expect="violation", count=False,
+        lambda: run.tlc("ScRecv", "ScExpire", "ScExpire_mc.cfg", workers=2, label="contract: 3 tokens, lifetime 4 ticks, 12 ticks, 3 injections"),
+        lambda: run.tlc("ScRecv", "ScExpire", "ScExpire_dev.cfg", workers=1, expect="violation", count=False,
                         label="deviation demo: expiry under the wrong map key violates InvExpired"),
         lambda: run.tlc("ScRecv", "ScExpire", "ScExpire_gen_q.cfg" if q else "ScExpire_gen_t.cfg", mode="gen", count=False,
                         label="behaviours with at least one overdue injection"),
